@@ -258,3 +258,28 @@ Definition plate_name (p : plate) : result nat :=
   | [] => Err 7
   | ir :: _ => Ok (fst ir)
   end.
+(* a ScreenSubset: the (position, row) pairs its selection vector selects, in storage order.  A Plate used where a
+   ScreenSubset is expected (Plate is a subclass) is its rows p_rows *)
+Definition subset : Type := list irow.
+Definition selects (a : subset) (ir : irow) : bool := existsb (Nat.eqb (fst ir)) (map fst a).
+(* a.combine(b) = Plate(screen, a.selection_vector | b.selection_vector) *)
+Definition subset_union (s : screen) (a b : subset) : subset :=
+  filter (fun ir => selects a ir || selects b ir) (indexed s).
+(* ScreenSubset.concat(l): ValueError on [] (Err 3); a single element is returned itself; otherwise the subset whose
+   selection vector is the disjunction of all *)
+Definition subset_concat (s : screen) (l : list subset) : result subset :=
+  match l with
+  | [] => Err 3
+  | [a] => Ok a
+  | _ => Ok (filter (fun ir => existsb (fun a => selects a ir) l) (indexed s))
+  end.
+(* np.array_split(l, n)[i].tolist(): ValueError for n <= 0 (Err 1), IndexError for i out of range (Err 2) *)
+Definition array_split_at {A} (l : list A) (n i : Z) : result (list A) :=
+  if n <=? 0 then Err 1
+  else match py_index (array_split l (Z.to_nat n)) i with
+       | Some c => Ok c
+       | None => Err 2
+       end.
+(* Scorer.score(plates=d, ...): an arbitrary function of the dict it is handed (plate id -> subset, in dict order)
+   to the dict it returns (plate id -> score key, in dict order) *)
+Definition scorer_fn : Type := list (Z * subset) -> list slot.
